@@ -437,6 +437,16 @@ func Catalogue(prop, tier string) []Cfg {
 			rc("v1", func(c *Cfg) { c.N = []int{2}; c.Script = 1 })
 		}
 	case "C16":
+		// Stop() and cancel() racing from two goroutines
+		for _, mode := range []string{"", "norelease"} {
+			c := pc("v1", []uint{2, 1}, 2, "fair", []int{2}, []int{2, 1}, "pool", mode)
+			c.Stop = "both"
+			add(c)
+			c = pc("s1", []uint{1}, 1, "fair", []int{2}, []int{2}, "", mode)
+			c.Stop = "both"
+			add(c)
+			add(Cfg{Harness: "join", Disc: "join1", J: 2, NoCopy: true, Cap: []int{1}, N: []int{4}, Stop: "both", Mode: mode, Bound: -1, Graph: true})
+		}
 		for _, stop := range []string{"stop", "cancel"} {
 			for _, mode := range []string{"", "norelease", "noread"} {
 				for _, h := range []uint{1, 2} {
